@@ -37,6 +37,8 @@
 (*        of the object including the private key objects of its inputs    *)
 (*  sign-stores-private-key-in-input  sign(key) on an input that was built *)
 (*        without keys stores the private key object in the input          *)
+(*  bare-public-path-returns-receiver  subkey_for_path('M') (the public    *)
+(*        root without further levels) returns the private receiver itself *)
 (*  walletkey-repr-prints-private-wif  repr() of a wallet key / key row of *)
 (*        a private key prints the private extended key                    *)
 (***************************************************************************)
@@ -45,7 +47,8 @@ EXTENDS Naturals, Sequences, FiniteSets
 Enc == {"raw", "hex", "int", "wif", "xprv"}
 ScalarEnc == {"raw", "hex", "int"}
 AllDeviations == {"public-keeps-wif-cache", "signature-keeps-secret", "tx-save-pickles-private-keys",
-                  "sign-stores-private-key-in-input", "walletkey-repr-prints-private-wif"}
+                  "sign-stores-private-key-in-input", "bare-public-path-returns-receiver",
+                  "walletkey-repr-prints-private-wif"}
 
 KeyKinds == {"key", "hdkey"}
 Kinds == KeyKinds \cup {"sig", "tx"}
@@ -55,11 +58,18 @@ Clean(kind)  == [kind |-> kind, private |-> FALSE, scalar |-> {}, cache |-> {}, 
 Held(s) == s.scalar \cup s.cache \cup s.sig \cup s.given
 
 \* ----- calls ---------------------------------------------------------------------------------------------------------
-KeyCalls == {"wif", "as_dict", "as_dict_priv", "repr", "info", "address", "encrypt", "sign", "public", "deepcopy",
-             "unpickle", "mktx_pub", "mktx_addr", "mktx_priv"}
-HDOnlyCalls == {"wif_public", "wif_private", "child_priv", "child_pub", "public_master", "public_master_priv"}
-SigCalls == {"repr", "as_der", "deepcopy", "unpickle"}
-TxCalls == {"as_dict", "repr", "info", "raw", "deepcopy", "unpickle", "save", "load", "reparse"}
+\* ("repr" stands for every default form: repr, str, bytes, hex, address data and the Address object; "copy" for a deep
+\* copy, a shallow copy or a pickle round trip, after which the copy is the subject)
+KeyCalls == {"wif", "as_dict", "as_dict_priv", "repr", "info", "encrypt", "sign", "public", "copy",
+             "mktx_pub", "mktx_addr", "mktx_priv"}
+\* public_path: subkey_for_path with the public root 'M' followed by levels of any shape (non-hardened, ending or
+\* starting with hardened levels, every marker spelling, string or list); public_root: the bare path 'M'
+HDOnlyCalls == {"wif_public", "wif_private", "child_priv", "child_pub", "public_master", "public_master_priv",
+                "public_path", "public_root"}
+\* calls documented to return a PUBLIC object (or to refuse): whatever the receiver, nothing private comes back
+PublicObjectCalls == {"public", "child_pub", "public_master", "public_path", "public_root"}
+SigCalls == {"repr", "as_der", "copy"}
+TxCalls == {"as_dict", "repr", "info", "raw", "copy", "save", "load", "reparse"}
 NeedPrivate == {"sign", "mktx_pub", "mktx_addr", "mktx_priv"}            \* cannot be performed with a public key
 CallsOf(s) == CASE s.kind = "key" -> IF s.private THEN KeyCalls ELSE KeyCalls \ NeedPrivate
                 [] s.kind = "hdkey" -> IF s.private THEN KeyCalls \cup HDOnlyCalls ELSE (KeyCalls \cup HDOnlyCalls) \ NeedPrivate
@@ -86,7 +96,9 @@ Act(D, s, c) ==
   CASE s.kind \in KeyKinds /\ c \in {"wif", "as_dict_priv", "info"} ->
          [same EXCEPT !.st = IF s.private /\ c \in CachingCalls(s.kind) THEN [s EXCEPT !.cache = @ \cup {"wif"}] ELSE s]
     [] s.kind \in KeyKinds /\ c = "public" -> [same EXCEPT !.st = Public(D, s)]
-    [] s.kind = "hdkey" /\ c \in {"child_pub", "public_master"} -> [same EXCEPT !.st = Clean("hdkey")]   \* a new object
+    [] s.kind = "hdkey" /\ c \in {"child_pub", "public_master", "public_path"} -> [same EXCEPT !.st = Clean("hdkey")]   \* a new object
+    [] s.kind = "hdkey" /\ c = "public_root" ->
+         [same EXCEPT !.st = IF "bare-public-path-returns-receiver" \in D THEN s ELSE Public(D, s)]
     [] s.kind = "hdkey" /\ c \in {"child_priv", "public_master_priv"} ->
          \* from a public key: refused, or (non-hardened path) the public child - never a private object
          [same EXCEPT !.st = IF s.private THEN NewKey("hdkey") ELSE Clean("hdkey")]
